@@ -27,7 +27,7 @@ from .c05 import apply_row
 
 PROP = 'C08'
 from . import lemmas as _lemmas
-LEMMAS = [_lemmas.PROTOCOL, _lemmas.SOLVE]
+LEMMAS = [_lemmas.PROTOCOL, _lemmas.SOLVE, _lemmas.INTBC]
 RULES = {'A1': 'equivariance under Cartesian axis permutations', 'A2': 'embedding into the higher-dimensional grid', 'A3': 'mirror symmetry',
          'A4': 'translation across a periodic seam (uniform axis)'}
 ASSUMPTIONS = ['exact arithmetic; solution-level statements follow with C03/C04 (same boundary treatment on the paired grids)',
